@@ -85,6 +85,16 @@ class ValuesProfile(StoreProfile):
         n = run.scratch["n"]
         r = rng.random()
         if n < 3 or (r < 0.25 and n < POOL_MAX):
+            if rng.random() < 0.15:
+                # built from a fields dictionary the CLIENT KEEPS (in template order, or shuffled) and mutates later
+                ents = run.store.listing(m.default_config)
+                vocab = self.vocab(run)
+                base = rng.choice(ents) if ents else gen_sid(rng, m, vocab, rng.choice(vocab.usable_types()), {}, reuse=0)
+                if base and m.natural_type(base):
+                    f = list(m.fields(m.natural_type(base), base).items())
+                    if rng.random() < 0.4:
+                        rng.shuffle(f)
+                    return {"op": "new", "held_dict": f}
             return {"op": "new", "e": self.new_sid_expr(run)}
         names = ["p%d" % k for k in range(n)]
         a = rng.choice(names)
@@ -161,9 +171,16 @@ class ValuesProfile(StoreProfile):
             run.start_epoch()
             sc["snaps"] = {}
             sc["n"] = 0
+            sc["dict_of"] = {}
             return
         if op == "new":
             name = "p%d" % sc["n"]
+            if "held_dict" in step:
+                dname = "dict_" + name
+                run.do(X.call("dict", [list(kv) for kv in step["held_dict"]]), store=dname)
+                step = dict(step, e=X.call("Sid", fields=X.ref(dname)))
+                sc.setdefault("dict_of", {})[name] = dname
+                run.probes["sid_from_client_held_dict"] += 1
             obs = run.do(step["e"], store=name)
             if X.is_exc(obs):
                 run.stats["constructor_raised"] += 1
@@ -186,6 +203,13 @@ class ValuesProfile(StoreProfile):
         elif op == "use":
             if step["a"] not in sc["snaps"] or step["b"] not in sc["snaps"]:
                 return
+            dname = (sc.get("dict_of") or {}).get(step["a"])
+            if dname and step["kind"] in ("fields_mut", "misc", "copy"):
+                # the client mutates ITS OWN dictionary, the one the Sid was built from
+                D = X.ref(dname)
+                run.do(X.seq(X.meth(D, "__setitem__", "project", "MUTATED"), X.meth(D, "pop", "type", None),
+                             X.meth(D, "update", X.lit({"zzz": "1"}))))
+                run.probes["client_dict_mutated"] += 1
             run.do(self.use_expr(run, step))
             run.case_mark(step["kind"], sc["snaps"][step["a"]][3])
         else:
